@@ -1048,13 +1048,21 @@ pub fn init(max_steps: u64) {
 /// that arms the `pick`-th timer of the case (sleep, park time-out, io time-out ...) is
 /// descheduled for `stall_ms` virtual ms right after arming it
 pub const ARM: u16 = u16::MAX;
+/// a segment with this `run` value sets the quantum of the fair round-robin fallback that
+/// takes over when the segments are used up to `pick` (1..) schedule points instead of 40:
+/// fine grained interleaving for the whole case, so that aimed events (a cancel a few points
+/// after its target entered an operation) really land within a few points
+pub const QUANTUM: u16 = u16::MAX - 1;
 
 pub fn start_exploring(schedule: Vec<Seg>) {
     let mut g = lock();
     let s = g.as_mut().unwrap();
     s.arm_stalls = schedule.iter().filter(|x| x.run == ARM && x.stall_ms > 0).map(|x| (x.pick, x.stall_ms)).collect();
     s.arms = 0;
-    let schedule: Vec<Seg> = schedule.into_iter().filter(|x| x.run != ARM).collect();
+    if let Some(q) = schedule.iter().find(|x| x.run == QUANTUM) {
+        s.quantum = (q.pick as u64).max(1);
+    }
+    let schedule: Vec<Seg> = schedule.into_iter().filter(|x| x.run != ARM && x.run != QUANTUM).collect();
     s.schedule = schedule;
     s.seg_idx = 0;
     s.run_left = 0;
